@@ -35,10 +35,11 @@ def main():
     ms = json.load(open(os.path.join(HERE, "mutants", "canaries.json")))
     sel = sys.argv[1:]
     ok = True
-    for m in ms:
-        if sel and not any(s in m["id"] or s == m["property"] for s in sel):
-            continue
-        rc, txt = run(m)
+    from concurrent.futures import ThreadPoolExecutor
+    todo = [m for m in ms if not sel or any(s in m["id"] or s == m["property"] for s in sel)]
+    with ThreadPoolExecutor(max_workers=int(os.environ.get("CANARY_JOBS", "4"))) as pool:
+        outs = list(pool.map(run, todo))
+    for m, (rc, txt) in zip(todo, outs):
         want = 0 if m.get("harmless") else 1
         good = rc == want
         ok &= good
